@@ -114,6 +114,18 @@ def extract(configs=('default', 'nofeat', 'rel'), repo=None, cache=True, quiet=F
                     failed.append(c)
                 else:
                     os.rename(tmp_out, os.path.join(d, c + '.json'))
+            # a build that failed under load (many parallel cargo runs) is retried once, alone
+            still = []
+            for c in failed:
+                tmp_out = os.path.join(d, c + '.json.tmp')
+                p2, tdir2 = _run_config(repo, c, tmp_out, os.path.join(d, c + '.log'))
+                rc = p2.wait()
+                shutil.rmtree(tdir2, ignore_errors=True)
+                if rc != 0 or not os.path.exists(tmp_out):
+                    still.append(c)
+                else:
+                    os.rename(tmp_out, os.path.join(d, c + '.json'))
+            failed = still
             if failed:
                 for c in failed:
                     sys.stderr.write('qlint: extraction failed for config %s; log follows\n' % c)
